@@ -23,6 +23,20 @@ fn nested(d: &[usize], v: &[f64]) -> Array {
     Array::from(parts)
 }
 
+/// as `nested`, but at every level the parts selected by `mask` are still held by a clone while
+/// the level is assembled
+fn nested_masked(d: &[usize], v: &[f64], mask: u32) -> Array {
+    if d.len() == 1 {
+        return Array::from(fl(v));
+    }
+    let inner: usize = d[1..].iter().product();
+    let parts: Vec<Array> = (0..d[0]).map(|i| nested_masked(&d[1..], &v[i * inner..(i + 1) * inner], mask)).collect();
+    let keep: Vec<Array> = parts.iter().enumerate().filter(|(i, _)| mask >> i & 1 == 1).map(|(_, p)| p.clone()).collect();
+    let a = Array::from(parts);
+    drop(keep);
+    a
+}
+
 fn check_layout(l: &mut Local, sub: &str, case: &dyn Fn() -> String, d: &[usize], v: &[f64], got: Result<(Vec<usize>, Vec<Float>), String>) {
     l.transitions += 1;
     l.validated += 1;
@@ -111,6 +125,36 @@ pub fn explore(opts: &Opts) -> Explored {
                 (a.dimensions().to_vec(), a.values().to_vec())
             });
             check_layout(l, "nested", &case, d, &v, got);
+        }
+        // every subset of the parts is still held by another live handle (plain clone, or tracked
+        // clone) when the parts are nested: construction must not depend on who else owns a part
+        if d.len() >= 2 && d[0] <= 4 {
+            let inner: usize = d[1..].iter().product();
+            for mask in 1u32..(1u32 << d[0]) {
+                for kind in 0..2usize {
+                    let case = || format!("nested from(vec<array>) {} with parts {:#b} also held by {}", name, mask, if kind == 0 { "a live clone" } else { "a live tracked clone used in a graph" });
+                    if l.want(&case) {
+                        let got = run_catch(|| {
+                            let parts: Vec<Array> = (0..d[0]).map(|i| nested_masked(&d[1..], &v[i * inner..(i + 1) * inner], mask)).collect();
+                            let mut keep: Vec<Array> = Vec::new();
+                            for (i, p) in parts.iter().enumerate() {
+                                if mask >> i & 1 == 1 {
+                                    if kind == 0 {
+                                        keep.push(p.clone());
+                                    } else {
+                                        let t = p.clone().tracked();
+                                        keep.push(&t * &t);
+                                    }
+                                }
+                            }
+                            let a = Array::from(parts);
+                            drop(keep);
+                            (a.dimensions().to_vec(), a.values().to_vec())
+                        });
+                        check_layout(l, "nested", &case, d, &v, got);
+                    }
+                }
+            }
         }
         // refusals: a zero anywhere in the dimensions
         for z in 0..d.len() {
@@ -278,6 +322,45 @@ pub fn explore(opts: &Opts) -> Explored {
                     let b = Array::from((d.clone(), v2));
                     if a == b || !(a != b) {
                         msgs.push(format!("arrays differing in element {} compare equal", f));
+                    }
+                }
+                // the smallest representable difference in one value
+                for f in [0, n - 1, n / 2] {
+                    let mut v2 = fl(&v);
+                    v2[f] = Float::from_bits(v2[f].to_bits() + 1);
+                    let b = Array::from((d.clone(), v2));
+                    if a == b || b == a || !(a != b) {
+                        msgs.push(format!("arrays differing by one unit in the last place of element {} compare equal", f));
+                    }
+                }
+                // special values: infinities, the largest and the smallest magnitudes compare by value
+                let specials: [Float; 6] = [Float::INFINITY, Float::NEG_INFINITY, Float::MAX, Float::MIN, Float::MIN_POSITIVE, Float::from_bits(1)];
+                for f in [0, n - 1] {
+                    for (si, sv) in specials.iter().enumerate() {
+                        let mut v2 = fl(&v);
+                        v2[f] = *sv;
+                        let x = Array::from((d.clone(), v2.clone()));
+                        let y = Array::from((d.clone(), v2.clone())).tracked();
+                        if !(x == x.clone()) || !(x == y) || !(y == x) || x != y {
+                            msgs.push(format!("two arrays with the same values, element {} being {:e}, compare unequal", f, sv));
+                        }
+                        let r = &y * &ones;
+                        if !(r == x) {
+                            msgs.push(format!("a result with element {} being {:e} compares unequal to a plain array with the same values", f, sv));
+                        }
+                        for (sj, sw) in specials.iter().enumerate() {
+                            if si != sj {
+                                let mut v3 = v2.clone();
+                                v3[f] = *sw;
+                                let z = Array::from((d.clone(), v3));
+                                if x == z || !(x != z) {
+                                    msgs.push(format!("arrays whose element {} is {:e} resp. {:e} compare equal", f, sv, sw));
+                                }
+                            }
+                        }
+                        if x == a {
+                            msgs.push(format!("an array whose element {} is {:e} compares equal to one where it is {:e}", f, sv, v[f]));
+                        }
                     }
                 }
                 // same values, different dimensions with the same element count
